@@ -256,3 +256,15 @@ Fixpoint count_work_op (o : op) : nat :=
   | _ => 0
   end.
 Definition count_work (b : list op) : nat := list_sum (map count_work_op b).
+
+(* ---------- explicit schedules (for the fair-termination theorem and the judge) ---------- *)
+(* apply the steps (agent, oracle integers) in order until the root body has returned; a blocked agent's turn is skipped *)
+Fixpoint run_sched (s : state) (sch : list (nat * list Z)) : state :=
+  if finished s then s else
+  match sch with
+  | [] => s
+  | (a, ch) :: r => match step s a ch with Some (s', _, _) => run_sched s' r | None => run_sched s r end
+  end.
+(* a round gives every agent one turn *)
+Definition fair_round (nagents : nat) (rd : list (nat * list Z)) : Prop := forall a, a < nagents -> exists ch, In (a, ch) rd.
+Definition round_robin (nagents : nat) (c : Z) : list (nat * list Z) := map (fun a => (a, [c])) (seq 0 nagents).
